@@ -579,6 +579,29 @@ def it_min_by(ex, st, callee, args):
     return run_pipe(ex, st, box(it), mode, args[1])
 
 
+@h(r'^<(?:std::ops::|core::ops::)?Range<(?:usize|u64|u32|i64|i32)> as IntoIterator>::into_iter$')
+def range_into_iter(ex, st, callee, args):
+    return args[0]
+
+
+@h(r'^<(?:std::ops::|core::ops::)?Range<(usize|u64|u32|i64|i32)> as Iterator>::next$')
+def range_next(ex, st, callee, args):
+    """Range::next: Some(start) and start += 1 while start < end"""
+    p = args[0]
+    r = p.get() if isinstance(p, Ptr) else p
+    if not (isinstance(r, list) and len(r) == 2): return NotImplemented
+    signed = callee.split('Range<', 1)[1][0] == 'i'
+    lt = (r[0] < r[1]) if signed else ULT(r[0], r[1])
+    def more(ex, st, a):
+        rr = a[0].get() if isinstance(a[0], Ptr) else a[0]
+        v = rr[0]; rr[0] = simp(v + 1)
+        return some(v)
+    c = simp(lt)
+    if z3.is_true(c): return more(ex, st, args)
+    if z3.is_false(c): return none()
+    return Fork([(lt, more), (Not(lt), lambda ex, st, a: none())])
+
+
 class Retain:
     """continuation for Vec::retain: the predicate closure runs on each element in order (from MIR), symbolic verdicts fork; kept elements stay in order"""
     def __init__(self, lptr, clo):
